@@ -6,6 +6,7 @@ use super::PropDef;
 use crate::engine::{expand, mix, Acc, CaseResult, Ctx, Fail, Tier};
 use crate::refcrypto::DhKind;
 use crate::sess::*;
+use proptest::prelude::*;
 use serde::{Deserialize, Serialize};
 use snow::Error;
 
@@ -155,15 +156,26 @@ fn cases(names: &[HsName], dhs: &[DhKind], thorough: bool, seed: u64) -> Vec<Cas
                     push(Kind::HsWrite { plen, buf: 0 });
                     push(Kind::HsWrite { plen, buf: 65535 });
                 }
-                for plen in [max - 2, max - 1, max, max + 1, max + 2, max + 16, 65535, 66000] {
-                    for buf in [65535usize, 65536, 65535 + 15, 65535 + 16, 65535 + 17, 66000, 70000] {
-                        push(Kind::HsWrite { plen, buf });
+                for (pk, plen) in [max - 2, max - 1, max, max + 1, max + 2, max + 16, 65535, 66000].into_iter().enumerate() {
+                    for (bk, buf) in [65535usize, 65536, 65535 + 15, 65535 + 16, 65535 + 17, 66000, 70000].into_iter().enumerate() {
+                        // quick: a rotating third of the 56 (payload, buffer) points per message
+                        if thorough || (pk + bk + ni + idx) % 3 == 0 {
+                            push(Kind::HsWrite { plen, buf });
+                        }
                     }
                 }
                 // reads
                 for plen in [0usize, 1, 17, max] {
                     for pbuf in [0usize, plen.saturating_sub(1), plen, plen + 1, plen + 16, 66000] {
                         push(Kind::HsReadGenuine { plen, pbuf });
+                    }
+                }
+                // a ladder of other lengths (powers of two and their neighbours) with exact and ample buffers
+                let ladder: Vec<usize> = if thorough { (0..=300).chain([511, 512, 513, 1023, 1024, 1025, 4095, 4096, 4097, 16383, 16384, 32767, 32768, 32769, 40000]).collect() } else { vec![15, 16, 31, 32, 33, 63, 64, 65, 127, 128, 129, 240, 241, 255, 256, 257, 272, 273, 511, 512, 4096, 32768] };
+                for plen in ladder {
+                    if plen <= max && (thorough || (plen + ni + idx) % 3 == 0) {
+                        push(Kind::HsReadGenuine { plen, pbuf: plen });
+                        push(Kind::HsWrite { plen, buf: lay.overhead + plen + 16 });
                     }
                 }
                 let shorts: Vec<usize> = if thorough { (0..lay.overhead).collect() } else { vec![0, 1, lay.overhead / 2, lay.overhead.saturating_sub(17), lay.overhead.saturating_sub(16), lay.overhead.saturating_sub(1)] };
@@ -271,7 +283,20 @@ fn t_oracle(c: &TCase, acc: &mut Acc) -> CaseResult {
 fn t_cases(seed: u64, thorough: bool) -> Vec<TCase> {
     let mut out = Vec::new();
     let suites = all_suites();
-    let lens = [0usize, 1, 15, 16, 17, 32, 100, 65518, 65519, 65520, 65534, 65535, 65536, 66000];
+    let _ = &suites;
+    let mut lens = vec![0usize, 1, 15, 16, 17, 32, 100, 65518, 65519, 65520, 65534, 65535, 65536, 66000];
+    // message lengths around powers of two (incl. the tag): 2^k - 1 .. 2^k + 17
+    for k in [6u32, 7, 8, 9, 10, 12, 14, 15] {
+        for d in [0usize, 1, 15, 16, 17] {
+            lens.push((1usize << k) + d);
+            lens.push((1usize << k) - 1);
+        }
+    }
+    if thorough {
+        lens.extend(200..=320);
+    }
+    lens.sort();
+    lens.dedup();
     for (k, pat) in ["NN", "N", "XX", "K", "IK", "X"].iter().enumerate() {
         for (si, suite) in suites.iter().enumerate() {
             if !thorough && (si + k) % 6 != 0 {
@@ -282,6 +307,10 @@ fn t_cases(seed: u64, thorough: bool) -> Vec<TCase> {
             for stateless in [false, true] {
                 for write in [true, false] {
                     for &len in &lens {
+                        let base_len = [0usize, 1, 15, 16, 17, 32, 100, 65518, 65519, 65520, 65534, 65535, 65536, 66000].contains(&len);
+                        if !thorough && !base_len && (len + si + k) % 5 != 0 {
+                            continue; // quick: the power-of-two ladder rotates over the configurations
+                        }
                         let mut bufs = vec![0usize, len.saturating_sub(17), len.saturating_sub(16), len.saturating_sub(15), len.saturating_sub(1), len, len + 1, len + 15, len + 16, len + 17, 66000];
                         bufs.sort();
                         bufs.dedup();
@@ -311,6 +340,46 @@ pub fn run(ctx: &Ctx) {
     ctx.run_list("handshake_framing", &cs, true, oracle);
     let ts = t_cases(ctx.seed, thorough);
     ctx.run_list("transport_framing", &ts, true, t_oracle);
+    // random lengths: windows that no fixed list anticipates
+    let names2 = std::sync::Arc::new(all_hs_names());
+    let seed = ctx.seed;
+    ctx.run_prop(
+        "random_lengths",
+        ctx.tier.pick(30_000, 600_000),
+        || {
+            let names = names2.clone();
+            (any::<u16>(), 0usize..24, any::<u16>(), prop_oneof![6 => 0usize..2048, 2 => 0usize..66000], -20i64..40, any::<u64>(), 0u8..6).prop_map(move |(ni, si, mi, plen, delta, ks, kind)| {
+                let suites = all_suites();
+                let spec = SessionSpec::simple(names[crate::engine::pick(ni, names.len())].clone(), suites[si], mix(seed, ks));
+                let idx = crate::engine::pick(mi, spec.n_msgs());
+                let ov = spec.layouts()[idx].overhead;
+                let max = 65535 - ov;
+                let k = match kind {
+                    0 | 1 => Kind::HsWrite { plen, buf: ((ov + plen) as i64 + delta).max(0) as usize },
+                    2 | 3 => Kind::HsReadGenuine { plen: plen.min(max), pbuf: (plen.min(max) as i64 + delta.min(20)).max(0) as usize },
+                    4 => Kind::HsReadShort { len: plen % ov.max(1) },
+                    _ => Kind::HsReadRaw { len: plen },
+                };
+                Case { spec, idx, kind: k }
+            })
+        },
+        oracle,
+    );
+    ctx.run_prop(
+        "random_transport_lengths",
+        ctx.tier.pick(30_000, 600_000),
+        || {
+            (0usize..6, 0usize..24, any::<bool>(), any::<bool>(), prop_oneof![6 => 0usize..2048, 2 => 0usize..66000], -20i64..40, any::<bool>(), any::<bool>(), any::<u64>()).prop_map(move |(p, si, stateless, write, len, delta, genuine, r_to_i, ks)| {
+                let pats = ["NN", "N", "XX", "K", "IK", "X"];
+                let suites = all_suites();
+                let spec = SessionSpec::simple(HsName { pattern: pats[p].to_string(), psks: vec![] }, suites[si], mix(seed, ks));
+                let oneway = spec.pattern().is_oneway();
+                let base = if write { len + 16 } else { len.saturating_sub(16) };
+                TCase { spec, stateless, write, len, buf: (base as i64 + delta).max(0) as usize, genuine: genuine || write, r_to_i: r_to_i && !oneway }
+            })
+        },
+        t_oracle,
+    );
 }
 
 pub fn replay(ctx: &Ctx, sub: &str, case: &serde_json::Value, origin: &str) -> bool {
